@@ -215,6 +215,24 @@ def run(ctx):
         want = CH + "::get" + st.split("::set")[-1]
         cs = list(cp.calls(st))
         ok = len(cs) == 1 and getters_in(dec, cs[0]["args"][0], CH) == {want}
+        if not cs:
+            # the id is set by a callee of this path that is handed it: `getPacket(deviceId, streamId)` sets it on the packet it builds
+            for _, c0 in cp.elems():
+                g0_ = fb.resolve_call(c0) if c0.get("k") == "call" else None
+                if g0_ is None or g0_.body is None or not g0_.raw.get("inrepo"):
+                    continue
+                inner = list(g0_.calls(st))
+                if len(inner) != 1:
+                    continue
+                a_in = strip_all_casts(facts.expand(g0_, inner[0]["args"][0]))
+                pd_ = [q["decl"] for q in g0_.params]
+                ec = facts.effective_call(c0)
+                if a_in.get("k") == "ref" and a_in.get("decl") in pd_ and len(ec.get("args", [])) > pd_.index(a_in["decl"]) and \
+                        all(any(x is inner[0] or x.get("id") == inner[0]["id"] for _, x in q.elems()) for q in paths.enumerate_paths(g0_) if q.end == "exit"):
+                    actual = ec["args"][pd_.index(a_in["decl"])]
+                    cs = [c0]
+                    ok = getters_in(dec, actual, CH) == {want}
+                    break
         res.check(ok, "C04-R1", "decode:reassembled:%s" % st.split("::")[-1], cs[0].get("loc") if cs else dec.loc, "%s <- %s" % (st.split("::")[-1], want.split("::")[-1]),
                   "reassembled packet: %s not fed from %s" % (st, want))
     # Packet(msgType, data, size)
